@@ -82,6 +82,9 @@ func run(r *report.Run, shard, nshards int, replayFile string) {
 		"scenario B prunes with the consensus module's own EndBlock (estimates, attestation, PruneOldMessages(300) at h%50==0) and not the whole module manager, so keep-alive jailing of x/valset (C12) cannot be confused with prune-time jailing; the blocks between hand-in of evidence and the prune height are empty",
 		"'fewer than 10% attested' is read as 10*shares(evidence suppliers in the snapshot) < total snapshot shares; at exactly 10% the property does not constrain jailing of non-suppliers",
 		"shares of suppliers are taken from the genesis stakes and cross-checked against the current snapshot",
+		"scenario B hands evidence in in ascending validator order, each validator once with proof A or (v2, v5; thorough: all) the dissenting proof B: the prune-time code reads the evidence as a set (address look-ups, share sums, grouping by proof hash), so other hand-in orders reach the same decisions",
+		"validators with more than 25% of the bonded power (v5 of scenario B) cannot be jailed by x/valset at all; v0..v4 are jailable",
+		"the A_*/B_* counters are per-worker sums (operations of the two shared prefix levels are counted once per worker); states/transitions are exact",
 	}
 	scenario := "evidence"
 	if nshards >= 2 && shard >= nshards-nShardsB {
@@ -806,4 +809,3 @@ func orHarness(f *explore.Fail, what string) *explore.Fail {
 	}
 	return explore.Failf("harness-rejected", "%s", what)
 }
-
